@@ -457,3 +457,55 @@ func TestAEADRefusedParameters(t *testing.T) {
 		evid.Case("aesgcm/accepted", true, evid.NewH().I(int64(ks)).I(int64(iv)).I(int64(tag)).B(pt).Sum(), func() any { return fmt.Sprintf("ks=%d iv=%d tag=%d", ks, iv, tag) })
 	})
 }
+
+// TestGCMSIVHugeInputs checks the 64-bit bit-length block of AES-GCM-SIV for inputs of 2^29 bytes
+// and more (bit counts beyond 2^32), where fixed vectors never go. Inputs are all-zero so that the
+// reference needs only the length block (see sym.GCMSIVTagForZeroInputs); the ciphertext is
+// compared at sampled keystream blocks.
+func TestGCMSIVHugeInputs(t *testing.T) {
+	detrand.Seed(uint64(evid.EnvInt("VERIF_SEED", 1)))
+	key := gen.Expand(uint64(evid.EnvInt("VERIF_SEED", 1)), 32)
+	type sz struct{ ad, pt uint64 }
+	sizes := []sz{{1<<29 + 17, 33}, {0, 1 << 29}, {1<<29 - 1, 1}}
+	keyLens := []int{16 + 16*int(evid.EnvInt("VERIF_SEED", 1)&1)}
+	if evid.Tier() == "thorough" {
+		sizes = append(sizes, sz{1 << 29, 0}, sz{1 << 28, 1 << 28}, sz{1 << 30, 16}, sz{16, 1<<30 + 5}, sz{1<<29 + 1, 1 << 29})
+		keyLens = []int{16, 32}
+	}
+	for _, kl := range keyLens {
+		a, err := aeadsubtle.NewAESGCMSIV(key[:kl])
+		if err != nil {
+			t.Fatal(err)
+		}
+		for _, s := range sizes {
+			ad := make([]byte, s.ad)
+			pt := make([]byte, s.pt)
+			ct, err := a.Encrypt(pt, ad)
+			if err != nil {
+				t.Fatalf("AES-GCM-SIV key=%d len(ad)=%d len(pt)=%d: Encrypt: %v", kl, s.ad, s.pt, err)
+			}
+			nonce := ct[:12]
+			tag := ct[len(ct)-16:]
+			wantTag, encKey := sym.GCMSIVTagForZeroInputs(key[:kl], nonce, s.ad, s.pt)
+			if !bytes.Equal(tag, wantTag) {
+				t.Fatalf("AES-GCM-SIV key=%x nonce=%x all-zero ad of %d bytes, all-zero pt of %d bytes: tag %x, RFC 8452 reference %x (bit-length block)", key[:kl], nonce, s.ad, s.pt, tag, wantTag)
+			}
+			body := ct[12 : len(ct)-16]
+			for _, blk := range []uint64{0, 1, s.pt / 32, s.pt/16 - 1} {
+				if s.pt < 16 || blk*16+16 > s.pt {
+					continue
+				}
+				if ks := sym.GCMSIVKeystreamBlock(encKey, tag, uint32(blk)); !bytes.Equal(body[blk*16:blk*16+16], ks) {
+					t.Fatalf("AES-GCM-SIV key=%x nonce=%x len(pt)=%d: ciphertext block %d is %x, reference keystream %x", key[:kl], nonce, s.pt, blk, body[blk*16:blk*16+16], ks)
+				}
+			}
+			got, err := a.Decrypt(ct, ad)
+			if err != nil || !bytes.Equal(got, pt) {
+				t.Fatalf("AES-GCM-SIV key=%d len(ad)=%d len(pt)=%d: round trip failed: %v", kl, s.ad, s.pt, err)
+			}
+			evid.Case(fmt.Sprintf("gcmsiv-huge/key=%d", kl*8), true, evid.NewH().I(int64(kl)).I(int64(s.ad)).I(int64(s.pt)).Sum(), func() any {
+				return map[string]any{"key_bits": kl * 8, "ad_len": s.ad, "pt_len": s.pt}
+			})
+		}
+	}
+}
